@@ -1,0 +1,15 @@
+//go:build verif
+
+package fluentdforward
+
+import (
+	"github.com/relex/gotils/logger"
+	"github.com/relex/slog-agent/output/baseoutput"
+)
+
+// VerifOpenForwardConnection exposes openForwardConnection to the verification harness, which wraps the real
+// connection in an event-logging decorator before handing it to baseoutput.NewClientWorker (exactly what
+// NewClientWorker of this package does, plus the log).
+func VerifOpenForwardConnection(parentLogger logger.Logger, config UpstreamConfig) (baseoutput.ClosableClientConnection, error) {
+	return openForwardConnection(parentLogger, config)
+}
